@@ -26,6 +26,8 @@ enum Op {
     Reserve(usize),
     /// clone, continue on the clone, drop the source
     CloneSwap,
+    /// `dst.clone_from(&src)` into an existing vector of 0 / len + 1 / len + 3 elements, continue on dst, drop the source
+    CloneFromSwap(usize),
     /// element write through DerefMut
     Write(usize),
     /// read len/is_empty/capacity/as_ptr/Debug through the accessors
@@ -285,6 +287,8 @@ impl<E: Elem + Clone> Sut<E> {
                 }
                 v.push(Op::FromSpare(0, 3));
                 v.push(Op::FromSpare(2, 1));
+                // several KiB of unused capacity
+                v.push(Op::FromSpare(2, 5000));
             }
             Some(m) => {
                 let len = m.len();
@@ -304,6 +308,9 @@ impl<E: Elem + Clone> Sut<E> {
                     v.push(Op::Reserve(k));
                 }
                 v.push(Op::CloneSwap);
+                for k in 0..3 {
+                    v.push(Op::CloneFromSwap(k));
+                }
                 if E::PANICKY {
                     for k in 0..len {
                         v.push(Op::ClonePanic(k));
@@ -430,9 +437,16 @@ impl<E: Elem + Clone> Sut<E> {
                         bail2("vec:reserve", at(&format!("after reserve({}) capacity {} len {}", k, c.capacity(), c.len())))?;
                     }
                 }
-                Op::CloneSwap => {
+                Op::CloneSwap | Op::CloneFromSwap(_) => {
                     let src = cv.take().unwrap();
-                    let mut cl = src.clone();
+                    let mut cl = if let Op::CloneFromSwap(k) = *op {
+                        let n = match k { 0 => 0, 1 => src.len() + 1, _ => src.len() + 3 };
+                        let mut dst: CVec<E> = CVec::from((0..n).map(|_| E::make(next_val())).collect::<Vec<E>>());
+                        dst.clone_from(&src);
+                        dst
+                    } else {
+                        src.clone()
+                    };
                     // source must be untouched by clone
                     let sv: Vec<u64> = src.iter().map(|e| e.val()).collect();
                     if &sv != model.as_ref().unwrap() {
